@@ -330,7 +330,7 @@ def run(ctx):
                     if f.startswith(".cache"):
                         os.unlink(os.path.join(dp, f))
             cfg = pyg.make_config(tree.root, **{"pygopherd|servertype": stype, "pygopherd|port": "0", "pygopherd|interface": "127.0.0.1",
-                                                "pygopherd|servername": "localhost",
+                                                "pygopherd|servername": "localhost", "pygopherd|timeout": "5",
                                                 "pygopherd|enable_tls": "yes", "pygopherd|tls_certfile": os.path.join(pyg.REPO, "testdata", "demo.crt"),
                                                 "pygopherd|tls_keyfile": os.path.join(pyg.REPO, "testdata", "demo.key")})
             cfg.set("logger", "logmethod", "none")
@@ -393,6 +393,7 @@ def run(ctx):
                 # ---- clients that misbehave: the others are served as if alone, the server keeps accepting -----------------
                 # (a) clients that connect and stay silent while others are served
                 silent = [socket.create_connection(("127.0.0.1", port), timeout=10) for _ in range(3)]
+                t_silent = time.time()
                 try:
                     time.sleep(0.2)
                     M = 8
@@ -420,6 +421,24 @@ def run(ctx):
                             res.violation("C14:response-differs:" + stype, "a response differs from the response the client would get alone", inp,
                                           observed=got[i][:200], required=seq[picks2[i]][:200], replay={"server": stype, "scenario": "silent"})
                         res.count(f"{stype}:beside-silent:{'same' if got[i] == seq[picks2[i]] else 'DIFF'}")
+                    # ... and the silent ones are cut off once the configured timeout (5 s here) has passed: their workers end
+                    t_end = t_silent + 5 + 4
+                    still_open = 0
+                    for x in silent:
+                        x.settimeout(max(0.2, t_end - time.time()))
+                        try:
+                            if x.recv(16) != b"":
+                                pass
+                        except socket.timeout:
+                            still_open += 1
+                        except OSError:
+                            pass
+                    res.evaluations += 1
+                    res.count(f"{stype}:silent-cut-off:{3 - still_open}/3")
+                    if still_open:
+                        res.violation("C14:silent-client-not-cut-off:" + stype, "a client that stays silent keeps its worker beyond the configured timeout",
+                                      {"server": stype, "configured_timeout_s": 5, "silent_clients": 3}, observed=f"{still_open} connection(s) still open after 9 s",
+                                      required="closed by the server after 5 s", replay={"server": stype, "scenario": "silent-timeout"})
                 finally:
                     for x in silent:
                         x.close()
